@@ -481,6 +481,8 @@ class SubscriptionsManagerBase:
         dispatch_identifier = _mk_dispatch_identifier(reference_parameters, path_suffix)
         with self._subscriptions.lock:
             subscription = self._subscriptions.dispatch_identifier.get_one(dispatch_identifier, allow_none=True)
+        if subscription is not None and subscription.unsubscribed_at is not None:
+            subscription = None  # already unsubscribed, it only waits for housekeeping
         if subscription is None:
             self._logger.warning(  # noqa: PLE1205
                 '{}: unknown Subscription identifier "{}" from {}',
